@@ -166,6 +166,10 @@ func (w *World) doExportImport(in Intent) {
 	}
 	nn.InBlock = false
 	nn.Header = tmproto.Header{}
+	if in.Op == "compare" {
+		w.St.Probe("boundary-compared")
+		return
+	}
 	if same {
 		// behaviour must be the same too: run both chains side by side from here on
 		w.Nodes = append(w.Nodes, nn)
